@@ -271,6 +271,7 @@ async fn run_case(cx: &Ctx<'_>, seed: u64, idx: u64, thorough: bool, selftest: b
     let mut cfg = HistCfg::random(&mut rng, None);
     cfg.initial_rows_per_file = *rng.pick(&[2usize, 3, 4, 5, 7]);
     cfg.allow_defer_remap = true;
+    cfg.allow_interleaved_delete = true;
     let mut h = match Hist::create(&mut rng, cfg.clone(), &format!("c13-{seed}-{idx}"), (idx % 4000) as usize + 1).await {
         Ok(h) => h,
         Err(e) => {
@@ -377,6 +378,17 @@ async fn run_case(cx: &Ctx<'_>, seed: u64, idx: u64, thorough: bool, selftest: b
             _ => {}
         }
         let frags_after: Vec<u64> = h.ds.get_fragments().iter().map(|f| f.id() as u64).collect();
+        // rows removed by the concurrent delete are expected to be gone
+        let mut before = before;
+        if let Some(p) = &spec.interleaved_delete {
+            use vmon::table::Cell;
+            before.obs.rows.retain(|r| !p.eval(r.id, &Cell::Null));
+            before.count = before.obs.rows.len();
+            for q in before.queries.iter_mut() {
+                q.1.retain(|id| !p.eval(*id, &Cell::Null));
+            }
+            cx.report.count("compactions_with_concurrent_delete", 1);
+        }
         // ---- after (fresh session half of the time: nothing may depend on caches)
         let ds_after = if rng.bool() {
             match guard(h.actor.fresh_session().open(&h.uri)).await {
@@ -425,6 +437,25 @@ async fn run_case(cx: &Ctx<'_>, seed: u64, idx: u64, thorough: bool, selftest: b
         rows_compared += after.obs.rows.len() as u64;
         queries_compared += after.queries.len() as u64;
         index_used += after.queries.iter().filter(|q| q.2).count() as u64;
+        if let (Some(p), true, false) = (&spec.interleaved_delete, h.second_commit_round_accepted, findings.is_empty()) {
+            // one class: rows deleted by the concurrent writer come back when leftover tasks are
+            // committed in a second commit_compaction call
+            use vmon::table::Cell;
+            let b = before.obs.by_id();
+            let back: Vec<i64> = after.obs.rows.iter().map(|r| r.id).filter(|id| !b.contains_key(id)).collect();
+            if !back.is_empty() && back.iter().all(|id| p.eval(*id, &Cell::Null)) {
+                cx.report.violation(
+                    "concurrently-deleted-rows-resurrected-by-second-commit-compaction-round",
+                    &format!(
+                        "{} rows deleted by another writer between task execution and commit are visible again after the leftover compaction tasks were committed",
+                        back.len()
+                    ),
+                    json!({"seed": seed, "case": idx, "round": round, "compaction": spec.brief(), "resurrected_ids": back,
+                           "fragments_before": frags_before, "fragments_after": frags_after, "history": h.log_json()}),
+                );
+                return (0, 0);
+            }
+        }
         if !findings.is_empty() {
             for f in findings {
                 let base = if f.sig.starts_with("index-query-answer-changed-by-compaction") {
@@ -432,7 +463,16 @@ async fn run_case(cx: &Ctx<'_>, seed: u64, idx: u64, thorough: bool, selftest: b
                 } else {
                     f.sig.clone()
                 };
-                let sig = format!("{base}{}", config_tag(stable, spec.defer_index_remap, fri_present));
+                let sig = format!(
+                    "{base}{}{}",
+                    config_tag(stable, spec.defer_index_remap, fri_present),
+                    match (&spec.interleaved_delete, h.second_commit_round_accepted) {
+                        (Some(_), true) => "+concurrent-delete+second-commit-round",
+                        (Some(_), false) => "+concurrent-delete",
+                        (None, true) => "+second-commit-round",
+                        (None, false) => "",
+                    }
+                );
                 cx.report.violation(
                     &sig,
                     &f.what,
@@ -518,6 +558,7 @@ pub fn run(args: &Args) -> i32 {
         return if g.0 > 0 && g.0 == g.1 { 0 } else { 2 };
     }
     report.set("ops_by_kind", ops.json());
+    report.set("table_shapes", crate::hist::TABLE_SHAPES.json());
     report.set("compaction_options_seen", opts.json());
     report.set("op_failures_and_rejections", diag.json());
     report.finish()
